@@ -281,56 +281,123 @@ class C18(core.Check):
     allowed_axioms = set()
     design_ref = "DESIGN.md section 5, C18"
     technique = ("Coq theorems (complete vm_compute sweeps of the finite description domain lifted with forallb_forall, "
-                 "arithmetic/bit-vector proofs for true colour and for the packing) about a model whose tables, masks and "
-                 "numeric parser/describer cores are re-translated from display/common.py on every run; extracted-model "
-                 "correspondence over the whole finite string domain; xterm-table / round-trip oracle")
-    level_text = ("Proved in Coq (25 theorems, all closed under the global context) about the model whose tables and numeric "
-                  "cores are re-translated from display/common.py each run.  For EVERY declared depth, every well-lexed "
-                  "foreground (any number, order and repetition of settings and colour parts) and background: the reported "
-                  "foreground/background never raise and rebuild exactly the same packed value at the declared depth "
-                  "(attrspec_roundtrip) and at the reported depth (colors_expresses); the reported depth is <= the declared one and "
-                  "no smaller depth can express the value (colors_minimal); the reported settings are exactly the given ones and "
-                  "the order of parts is irrelevant; equal values have equal hashes; get_rgb_values never raises and equals the "
-                  "xterm value of the reported description (rgb_matches_xterm) where the 256/88 tables equal the xterm closed "
-                  "forms (0|55+40k, 8+10k; 88colres steps) for every index; every rejection is AttrSpecError with one of the six "
-                  "raise statements (reject_is_attrspecerror).  Finite domains by complete vm_compute sweeps (bounds in the "
-                  "statements): parse o describe o parse = parse for all of h0..h255, #000..#fff, g0..g100, g#00..g#ff at 256 and 88 "
-                  "(payloads outside those ranges handled by arithmetic), nearest step for all v < 256 in the four lookup tables with "
-                  "exact steps preserved, '#rgb'/'g#XX'/'gNN' reach a nearest palette entry; true colour by arithmetic for all "
-                  "n < 2^24 (true_roundtrip), '#rrggbb' below 2^24 colours degrades through its high nibbles.  Nothing is _partial.  "
-                  "NOT proved: the string lexing (startswith, int(), split, strip, f-strings) is outside the model; it is mirrored "
-                  "by the harness lexer and compared exhaustively over the finite string domain plus a malformed stream "
-                  "(correspondence on _value, colors, foreground, background, get_rgb_values, exception class and raise site).")
-    level_note = ("Trusted: Coq kernel (vm_compute), tools/py2v/mods/colours.py (a Tr subclass: constants, comprehensions, for/extend "
-                  "loop, checked subscripts, walrus, the lexical-abstraction table ABS), ExtrOcamlBasic extraction + driver.ml, the "
-                  "hand model of AttrSpec.__init__/__set_foreground/__set_background/foreground/background/get_rgb_values "
-                  "(validated by the exact correspondence, not proved against Python), the harness lexer/unlexer (uses Python's own "
-                  "int()), the oracle's xterm reference tables.  Assumes descriptions are lexed as in Base/ColourBase.v "
-                  "(three hex characters < 0x1000, six < 2^24, basic index < 16).")
+                 "arithmetic/bit-vector proofs for true colour and for the packing, a verified lexer lifting everything to raw "
+                 "strings) about a model whose tables, masks, parsers and describers are re-translated from display/common.py "
+                 "on every run at description level and at string level; extracted-model correspondence on raw strings over the "
+                 "whole finite string domain plus malformed strings; CPython primitive models validated per code point; "
+                 "xterm-table / round-trip oracle")
+    level_text = ("Proved in Coq (33 theorems, all closed under the global context) about a model that now CONTAINS THE STRING "
+                  "LEXING: strings are lists of code points; split(','), strip(), the setting / colour name tables, startswith, len, "
+                  "slicing, int(s, 10/16) with CPython's acceptance rules (white space, sign, '0x' + one '_', single underscores, "
+                  "Unicode decimal digits and spaces) and the f-string formatting are Gallina functions, and _parse_color_* / "
+                  "_color_desc_* / _true_to_256 are re-translated from display/common.py on strings without any abstraction.  For "
+                  "EVERY pair of strings and every depth (no well-formedness hypothesis): the strings reported by foreground / "
+                  "background rebuild exactly the same packed value at the declared and at the reported depth (string_roundtrip: "
+                  "parse(describe v) = v); the reported depth is <= the declared one and no smaller depth yields the value; "
+                  "get_rgb_values is the xterm value of what the reported strings lex to; every rejection is AttrSpecError from one "
+                  "of the six raise statements (string_reject_is_attrspecerror).  The string-level parsers / constructor are proved "
+                  "equal to the description-level ones after an explicit Gallina lexer, and every lexed input is well formed, which "
+                  "lifts the description-level theorems (round trip for any order / repetition of parts, settings reported, order "
+                  "irrelevant, rgb_matches_xterm, colors_expresses, colors_minimal, reject_is_attrspecerror) to all strings.  Finite "
+                  "domains by complete vm_compute sweeps (bounds in the statements): parse o describe for all palette numbers at 256 "
+                  "and 88 on descriptions and on strings, nearest step for all v < 256 in the four lookup tables with exact steps "
+                  "preserved, '#rgb'/'g#XX'/'gNN' reach a nearest palette entry, both RGB tables equal the xterm closed forms; true "
+                  "colour by arithmetic for all n < 2^24 (int(f'{n:06x}', 16) = n via a Horner lemma).  Nothing is _partial.  Tied to "
+                  "the implementation by an exact correspondence on RAW STRINGS (_value, colors, foreground, background, "
+                  "get_rgb_values, exception class and raise site), by a cross-check of the former harness lexer on every 6th case, "
+                  "and by a validation of the int()/isspace()/strip()/split() models against CPython for every code point and "
+                  "exhaustively for short strings over the lexer's alphabet.")
+    level_note = ("Trusted: Coq kernel (vm_compute), tools/py2v/mods/colours.py (ColTr/StrTr subclasses of Tr: constants, "
+                  "comprehensions, for/extend loop, checked subscripts, walrus, try/except ValueError around int(), string slices, "
+                  "f-strings, ''.join over a tuple; the description-level ABS table is now only a proof device), ExtrOcamlBasic "
+                  "extraction + driver.ml, the hand model of AttrSpec.__init__/__set_foreground/__set_background/foreground/"
+                  "background/get_rgb_values on strings (validated by the exact correspondence), the Gallina model of CPython's "
+                  "int()/str.strip()/str.isspace()/str.split() with its two Unicode 15.0 tables (validated against the running "
+                  "interpreter for all 1,114,112 code points each run), the oracle's xterm reference tables.")
     rule = ("case = (foreground string, background string, declared depth).  Exhaustive: every colour string of the finite "
             "domain (default, '', 16 names, h0..h255, #000..#fff, g0..g100, g#00..g#ff) as foreground and as background at "
             "each depth 1/16/88/256/2^24 with a pseudo-random subset, order and spacing of the six settings; every subset of "
             "the settings; sampled foreground x background pairs; sampled '#rrggbb'; the rejection classes of the property; a "
-            "malformed-string stream.  non-trivial = anything but ('default','default'); distinct by hash of (case, outcome)")
+            "malformed-string stream (now with Unicode spaces/digits, control characters, surrogates); every 6th case also through "
+            "the harness lexer; primitives: int(chr(c)) and chr(c).isspace() for every code point, int(s, 10/16) for every string of "
+            "length <= 3 over a 19-character alphabet plus random longer ones, strip and split(',') on random white-space strings.  "
+            "non-trivial = anything but ('default','default'); distinct by hash of (case, outcome)")
     trusted_base = [
         "Coq 8.16.1 kernel; vm_compute for the complete sweeps of the finite description domain",
-        "tools/py2v/mods/colours.py (ColTr, a subclass of py2v_core.Tr; Gen/colours_gen.v regenerated from display/common.py and util.py every run)",
-        "the lexical abstraction table ABS of that module and Base/ColourBase.v (string tests -> predicates on the lexical class)",
+        "tools/py2v/mods/colours.py (ColTr and StrTr, subclasses of py2v_core.Tr; Gen/colours_gen.v regenerated from display/common.py and util.py every run, description level and string level)",
+        "Base/ColourStr.v: the Gallina model of CPython 3.12 int(str, 10/16), str.strip, str.split(','), str.startswith, slicing and format(n, 'd'/'x'/'06x'), with the Unicode 15.0 white-space and Nd tables (compared with the running interpreter for every code point and exhaustively on short strings each run)",
         "extraction: ExtrOcamlBasic only; Z/positive stay Coq datatypes; OCaml 4.13.1; tools/driver/driver.ml",
-        "hand model Model/Colours.v of __init__, __set_foreground, __set_background, _foreground_color, foreground, background, get_rgb_values (validated by this correspondence, not proved against Python)",
-        "harness lexer/unlexer in harness/props/c18.py (mirrors the lexing lines of _parse_color_*, uses Python's int())",
+        "hand model Model/Colours.v of __init__, __set_foreground, __set_background, _foreground_color, foreground, background, get_rgb_values at string level (validated by this correspondence on raw strings, not proved against Python)",
         "Python oracle in harness/props/c18.py with its own xterm reference tables (XTerm-col.ad basic colours, 256colres.h / 88colres.h closed forms)",
     ]
     assumptions = [
-        "description strings are lexed as Base/ColourBase.v describes: '#'+3 hex characters carry a value below 0x1000, '#'+6 below 2^24, a basic name an index below 16; other payloads (hN, gN, g#XX) are arbitrary integers",
+        "strings are sequences of code points 0..0x10FFFF; int() is modelled for bases 10 and 16 on the short strings the lexer passes to it (the 4300-digit limit of CPython is out of reach: at most 7 characters)",
+        "s[i] on a string is modelled as the total s[i:i+1]; the source only indexes below a length test",
         "__eq__/__hash__ are modelled as equality / a function of the packed value (hash((class, value)))",
         "'gNN' is read as NN percent scaled by int_scale(NN, 101, 256); the oracle accepts the nearest gray of either rounding of NN*2.55, and both nearest entries on a tie",
         "at 2^24 colours the oracle accepts for '#rgb'/'gNN'/'g#XX' both the 256-palette entry (what the library does) and the exact expansion; '#rrggbb' at 88/256 colours is not judged for RGB (only round trip, depth, exception class)",
         "copy_modified, __repr__ and the display-side use of AttrSpec are not modelled",
     ]
 
+    # ---------- CPython primitives the string-level model relies on (validated, not judged) ----------
+    @staticmethod
+    def prim_impl(case):
+        op = case["op"]
+        if op == "cps":
+            out = []
+            for c in range(case["lo"], case["hi"]):
+                ch = chr(c)
+                try:
+                    d = int(ch)
+                except ValueError:
+                    d = -1
+                out += [d, 1 if ch.isspace() else 0]
+            return {"scan": out}
+        if op == "int":
+            try:
+                return {"int": int(case["s"], case["base"])}
+            except ValueError:
+                return {"int": None}
+        if op == "strip":
+            return {"str": case["s"].strip()}
+        if op == "split":
+            return {"parts": case["s"].split(",")}
+        raise core.MachineryError("unknown op " + op)
+
+    @staticmethod
+    def prim_encode(case):
+        op = case["op"]
+        if op == "cps":
+            return [2, case["lo"], case["hi"]]
+        if op == "int":
+            return [3, case["base"]] + [ord(c) for c in case["s"]]
+        if op == "strip":
+            return [4] + [ord(c) for c in case["s"]]
+        return [5] + [ord(c) for c in case["s"]]
+
+    @staticmethod
+    def prim_decode(case, ints):
+        op = case["op"]
+        try:
+            if op == "cps":
+                return {"scan": list(ints)}
+            if op == "int":
+                return {"int": None if ints[0] == 0 else ints[1]}
+            if op == "strip":
+                return {"str": "".join(chr(c) for c in ints)}
+            parts, i = [], 0
+            while i < len(ints):
+                n = ints[i]
+                parts.append("".join(chr(c) for c in ints[i + 1:i + 1 + n]))
+                i += 1 + n
+            return {"parts": parts}
+        except (IndexError, ValueError):
+            return {"malformed": ints[:40]}
+
     # ---------- implementation ----------
     def run_impl(self, case):
+        if case.get("op") in ("cps", "int", "strip", "split"):
+            return self.prim_impl(case)
         a, err = build(case["fg"], case["bg"], case["colors"])
         if a is None:
             return {"err": err[0], "why": err[1]}
@@ -340,6 +407,16 @@ class C18(core.Check):
 
     # ---------- model wire format ----------
     def encode(self, case):
+        if case.get("op") in ("cps", "int", "strip", "split"):
+            return self.prim_encode(case)
+        if case.get("op") != "lex":
+            # raw strings: the model does split / strip / name lookup / int() itself
+            fg, bg = case["fg"], case["bg"]
+            return [1, case["colors"], len(fg)] + [ord(c) for c in fg] + [len(bg)] + [ord(c) for c in bg]
+        return [0] + self.encode_lexed(case)
+
+    def encode_lexed(self, case):
+        """description-level wire (cross-check): the harness performs the lexing"""
         depth = case["colors"]
         parts = []
         for p in case["fg"].split(","):
@@ -354,6 +431,45 @@ class C18(core.Check):
         return out + list(lex_colour(case["bg"], depth))
 
     def decode(self, case, ints):
+        if case.get("op") in ("cps", "int", "strip", "split"):
+            return self.prim_decode(case, ints)
+        if case.get("op") != "lex":
+            return self.decode_str(ints)
+        return self.decode_lexed(case, ints)
+
+    @staticmethod
+    def decode_str(ints):
+        it = iter(ints)
+
+        def take_str():
+            if next(it):
+                n = next(it)
+                return "".join(chr(next(it)) for _ in range(n))
+            return {"exc": ERRN.get(next(it), "?")}
+        try:
+            tag = next(it)
+            if tag == 0:
+                return {"err": ERRN.get(next(it), "?"), "why": next(it)}
+            if tag != 1:
+                return {"malformed": ints[:40]}
+            out = {"value": next(it), "colors": next(it)}
+            out["fg"] = take_str()
+            out["bg"] = take_str()
+            if next(it):
+                rgb = []
+                for _ in range(2):
+                    if next(it):
+                        rgb += [next(it), next(it), next(it)]
+                    else:
+                        rgb += [None, None, None]
+                out["rgb"] = rgb
+            else:
+                out["rgb"] = {"exc": ERRN.get(next(it), "?")}
+            return out
+        except (StopIteration, ValueError):
+            return {"malformed": ints[:40]}
+
+    def decode_lexed(self, case, ints):
         it = iter(ints)
         try:
             tag = next(it)
@@ -410,6 +526,8 @@ class C18(core.Check):
             self._shrinking = False
 
     def judge(self, case, res):
+        if case.get("op") in ("cps", "int", "strip", "split"):
+            return []          # CPython primitives: model validation only (correspondence)
         msgs = []
         fg, bg, depth = case["fg"], case["bg"], case["colors"]
         ref, info = reference(case)
@@ -487,6 +605,8 @@ class C18(core.Check):
         return k(info["fg"]) + "/" + k(info["bg"])
 
     def nontrivial(self, case, res):
+        if "fg" not in case:
+            return True
         return not (case["fg"] in ("", "default") and case["bg"] in ("", "default"))
 
     def signature(self, case, msg):
@@ -495,6 +615,11 @@ class C18(core.Check):
     def distribution(self, case, res, dist):
         def inc(k):
             dist[k] = dist.get(k, 0) + 1
+        if "fg" not in case:
+            inc("prim:" + case["op"])
+            return
+        if case.get("op") == "lex":
+            inc("wire:lexed-by-harness")
         inc("depth:%d" % case["colors"])
         if "err" in res:
             inc("outcome:%s/%d" % (res["err"], res["why"]))
@@ -510,6 +635,8 @@ class C18(core.Check):
         return (len(case["fg"]) + len(case["bg"]), case["fg"], case["bg"])
 
     def shrink_candidates(self, case):
+        if "fg" not in case:
+            return
         for cand in self.shrink_candidates_all(case):
             if self.size(cand) < self.size(case):       # strictly decreasing: the shrink loop terminates
                 yield cand
@@ -570,7 +697,9 @@ class C18(core.Check):
                 g = rng.randrange(256)
                 yield "#%02x%02x%02x" % (g, g, g)
 
-    ALPHABET = list("hg#0123456789abcdefABCDEFxX_+- ,") + ["٣", "１", "\t", "\n", "G", "H", "z", ".", "e", "0x", "1_0"]
+    ALPHABET = list("hg#0123456789abcdefABCDEFxX_+- ,") + ["٣", "１", "\t", "\n", "G", "H", "z", ".", "e", "0x", "1_0",
+                                                        "\x0b", "\x0c", "\r", "\x1c", "\x1f", "\x85", "\u00a0", "\u2003", "\u3000",
+                                                        "\u200b", "\x00", "\x7f", "\ud800", "\U0001d7d7", "\U0001e953", "__", "0X"]
     WORDS = ["purple", "orange", "grey", "light grey", "dark yellow", "Dark Red", "BLACK", "bright red", "red", "blue", "green",
              "dark  red", "lightgray", "none", "transparent", "bolder", "under line", "h", "g", "hx", "gray", "dark grey"]
 
@@ -621,6 +750,37 @@ class C18(core.Check):
             yield {"fg": "h300,bold,bold", "bg": "zzz", "colors": d, "src": "reject"}
 
     def cases(self, rng, tier):
+        # raw-string wire for every case; every 6th one is also sent through the harness lexer
+        # (description-level wire) as a cross-check of the lexer that the Coq development formalises
+        for i, c in enumerate(self.spec_cases(rng, tier)):
+            yield c
+            if i % 6 == 0:
+                yield dict(c, op="lex")
+        yield from self.primitive_cases(rng, tier)
+
+    INT_ALPHABET = [" ", "\t", "+", "-", "_", "0", "x", "X", "1", "9", "a", "A", "f", "F", "g", "\x1c", "\u0663", "\u00a0", "\x00"]
+    SPACES = [" ", "\t", "\n", "\x0b", "\x0c", "\r", "\x1c", "\x1d", "\x1e", "\x1f", "\x85", "\u00a0", "\u1680", "\u2000",
+              "\u200a", "\u2028", "\u2029", "\u202f", "\u205f", "\u3000", "\u200b", "\u180e", "\ufeff", "a", ",", "b"]
+
+    def primitive_cases(self, rng, tier):
+        """int(str, 10/16), str.strip, str.split(","), and the two Unicode tables for EVERY code point"""
+        step = 4096
+        for lo in range(0, 0x110000, step):
+            yield {"op": "cps", "lo": lo, "hi": min(lo + step, 0x110000)}
+        alpha = self.INT_ALPHABET
+        for n in (0, 1, 2, 3):
+            for t in itertools.product(alpha, repeat=n):
+                for base in (10, 16):
+                    yield {"op": "int", "base": base, "s": "".join(t)}
+        for _ in range(3000 if tier == "quick" else 60000):
+            n = rng.choice([4, 4, 5, 6, 6, 7, 8])
+            yield {"op": "int", "base": rng.choice([10, 16]), "s": "".join(rng.choice(alpha + ["0x", "0X", "__", "ff"]) for _ in range(n))}
+        for _ in range(1500 if tier == "quick" else 20000):
+            t = "".join(rng.choice(self.SPACES) for _ in range(rng.randrange(0, 9)))
+            yield {"op": "strip", "s": t}
+            yield {"op": "split", "s": t}
+
+    def spec_cases(self, rng, tier):
         self.domain = dom = self.colour_domain()
         quick = tier == "quick"
         for d in DEPTHS:
